@@ -24,7 +24,7 @@ ASSUMPTIONS = ['rilling_stop replaced by its documented formula in the rilling c
                'sd stop: the threshold is a symbolic real in (0,1); nonlinear queries may end unknown (counted inconclusive)']
 REQUIRED_CLASSES = ['two-or-more-imfs', 'extrema-vanish-after-iteration', 'residual-only', 'ended-of-own-accord']
 EXPECTED_LABELS = ['never-raises', 'additive', 'residual-non-oscillatory', 'shape']
-BUDGET_S = {'quick': 170, 'thorough': 1200}
+BUDGET_S = {'quick': 170, 'thorough': 900}
 OPTS = {'quick': {'sample_every': 9}, 'thorough': {'sample_every': 9, 'timeout_ms': 20000}}
 
 SIFT_THRESH = 1e-8
